@@ -239,6 +239,53 @@ def fault_stage(c, remote):
         server._pythia_server.stop(0)  # pylint: disable=protected-access
 
 
+KEY_ES_NO_DECISION = 'earlystop-no-decision-leaves-record-active'
+
+
+def earlystop_no_decision_stage(c):
+  """The early-stopping algorithm answers, but with NO decision for the trial that was asked about (Pythia does
+  not promise one): the trial's record stays ACTIVE and, with nothing else happening in the study, every later check
+  of the trial is answered from it without reaching the algorithm."""
+  import datetime
+  from vizier import pythia
+  from vizier import pyvizier as vz
+  from vizier._src.service import vizier_service, pythia_service, vizier_service_pb2 as vsp, study_pb2
+  calls = {'n': 0}
+
+  class Policy(pythia.Policy):
+    def __init__(self, supporter):
+      self._s = supporter
+
+    def suggest(self, request):
+      return pythia.SuggestDecision(suggestions=[vz.TrialSuggestion({'x': 0.5}) for _ in range(request.count)], metadata=vz.MetadataDelta())
+
+    def early_stop(self, request):
+      calls['n'] += 1
+      ds = [] if calls['n'] == 1 else [pythia.EarlyStopDecision(id=t, reason='r', should_stop=True) for t in request.trial_ids]
+      return pythia.EarlyStopDecisions(decisions=ds, metadata=vz.MetadataDelta())
+
+    @property
+    def should_be_cached(self):
+      return False
+  sv = vizier_service.VizierServicer(database_url=None, early_stop_recycle_period=datetime.timedelta(seconds=0))
+  sv.default_pythia_service = pythia_service.PythiaServicer(sv, policy_factory=lambda p, a, s, n: Policy(s))
+  study = svc.create_study(sv, owner='o', display='esnd')
+  op = sv.SuggestTrials(vsp.SuggestTrialsRequest(parent=study.name, suggestion_count=1, client_id='w'))
+  t = vsp.SuggestTrialsResponse.FromString(op.response.value).trials[0]
+  answers = []
+  for _ in range(3):
+    try:
+      answers.append(bool(sv.CheckTrialEarlyStoppingState(vsp.CheckTrialEarlyStoppingStateRequest(trial_name=t.name)).should_stop))
+    except Exception as e:  # pylint: disable=broad-except
+      answers.append('EXC:' + type(e).__name__)
+  c.traces += 1
+  c.count(1, ('earlystop-no-decision',), kind='fault:earlystop-no-decision')
+  if calls['n'] < 3:
+    c.prop_fail(KEY_ES_NO_DECISION,
+                'the early-stopping algorithm returned no decision for the checked trial at the first check; the next two checks were answered %s from the ACTIVE record without reaching the algorithm (%d of 3 checks reached it; it would have said stop)' % (answers[1:], calls['n']),
+                {'history': 'create study; suggest 1; 3 x CheckTrialEarlyStoppingState(trial 1), policy: [] then stop', 'answers': answers, 'algorithm_calls': calls['n']})
+
+
 def unreachable_pythia_stage(c):
   """Split deployment whose Pythia server is NOT reachable (study configured with a pythia_endpoint on an
   unused loopback port): SuggestTrials must TERMINATE with a reported failure (the stub's channel-ready
@@ -394,6 +441,7 @@ def run(c):
   fault_stage(c, remote=False)
   fault_stage(c, remote=True)
   unreachable_pythia_stage(c)
+  earlystop_no_decision_stage(c)
   client_stage(c)
   # the client library's reporting of failures (operation.error -> RuntimeError, bounded polling): Model/Client.lean
   from vcheck import clientcheck
